@@ -16,7 +16,7 @@ from vt.harness import Part, Report
 
 PROP = "C18"
 
-NAMES = ["index.wtml", "thumb.jpg", "L0X0Y0.png", "L1X1Y0.png", "zz_extra.txt", "aa_first.bin"]
+NAMES = ["index.wtml", "thumb.jpg", "L0X0Y0.png", "L1X1Y0.png", "zz_extra.txt", "aa_first.bin", "index_rel.wtml"]
 
 
 class InjectedCrash(Exception):
@@ -209,7 +209,7 @@ def run_case(d, images, id_order, file_orders, crash_at, mode, rename_crash, par
 
 
 def gen_cases(tier):
-    nmax = 5 if tier == "quick" else 6
+    nmax = 5 if tier == "quick" else 7
     cases = []
     for n in range(1, nmax + 1):
         for with_index in (True, False):
@@ -318,7 +318,7 @@ def run(tier, seed):
     rep.rule = (
         "every file set of size 1..%d (with/without index.wtml) x every listdir permutation x {no crash, crash before rename, crash at "
         "transfer k in modes before/partial/after}; two approved images in both id orders; each followed by a fault-free re-run; "
-        "non-trivial = a crash was injected and the image has an index.wtml" % (5 if tier == "quick" else 6)
+        "non-trivial = a crash was injected and the image has an index.wtml" % (5 if tier == "quick" else 7)
     )
     rep.assumptions = [
         "a crash is an exception out of put_item / os.rename standing for process death; the store is LocalPipelineIo on a scratch directory",
